@@ -600,21 +600,19 @@ impl<K: EnrKey> Enr<K> {
         match ip {
             IpAddr::V4(addr) => {
                 let prev_value = self.insert(IP_ENR_KEY, &addr.octets().as_ref(), key)?;
+                // the previous value is RLP encoded
                 if let Some(bytes) = prev_value {
-                    if bytes.len() == 4 {
-                        let mut v = [0_u8; 4];
-                        v.copy_from_slice(&bytes);
-                        return Ok(Some(IpAddr::V4(Ipv4Addr::from(v))));
+                    if let Ok(prev_ip) = Ipv4Addr::decode(&mut bytes.as_ref()) {
+                        return Ok(Some(IpAddr::V4(prev_ip)));
                     }
                 }
             }
             IpAddr::V6(addr) => {
                 let prev_value = self.insert(IP6_ENR_KEY, &addr.octets().as_ref(), key)?;
+                // the previous value is RLP encoded
                 if let Some(bytes) = prev_value {
-                    if bytes.len() == 16 {
-                        let mut v = [0_u8; 16];
-                        v.copy_from_slice(&bytes);
-                        return Ok(Some(IpAddr::V6(Ipv6Addr::from(v))));
+                    if let Ok(prev_ip) = Ipv6Addr::decode(&mut bytes.as_ref()) {
+                        return Ok(Some(IpAddr::V6(prev_ip)));
                     }
                 }
             }
